@@ -29,9 +29,10 @@ CFG = {
 }
 
 META = {
-    "text": "Differential over all storage combinations plus dense reference model, on ~180k (quick) / ~1.8M (thorough) generated operand sets covering every "
+    "text": "Differential over all storage combinations plus dense reference model, on ~800k (quick) / ~8M (thorough) generated operand sets covering every "
             "listed operation, element type, prior receiver content and zero pattern; held on the cases executed (per-operation, per-type and per-combination "
-            "counts in the evidence). Larger dimensions and non-finite values are not covered.",
+            "counts in the evidence), plus lock-step histories on the read-only sparse vectors and their ConstSlice views against a per-object []float64 model. "
+            "Larger dimensions and non-finite values are not covered.",
     "design_ref": "DESIGN.md section 3, C03",
     "note": "Trusted: the dense model in harness/c03 built from the library's scalar operations; internal/snap comparison; the dyadic operand grid that makes "
             "exact comparison order independent.",
